@@ -15,9 +15,12 @@ import (
 type envMatcher struct {
 	out  []byte
 	errs []match.MatcherError
+	got  string // the document this matcher was handed
+	ran  bool
 }
 
 func (m *envMatcher) JSON(b []byte) ([]byte, []match.MatcherError) {
+	m.got, m.ran = string(b), true
 	if m.out == nil {
 		return b, m.errs
 	}
@@ -110,6 +113,15 @@ func H_C17_matcher_errors() {
 		}
 	}
 	vxrt.Assert(named, "C17:every-failing-matcher-and-path-named")
+	// every matcher ran, on the document as left by the matchers before it that succeeded
+	// (what a failing matcher returns besides its errors is not used)
+	cur := doc
+	for k := range ms {
+		vxrt.Assert(ms[k].ran && ms[k].got == cur, "C17:later-matchers-see-the-document-of-the-successful-ones")
+		if len(ms[k].errs) == 0 && ms[k].out != nil {
+			cur = string(ms[k].out)
+		}
+	}
 	// the failing call consumed its ordinal: the next call addresses slot 2
 	if api < 2 {
 		vxrt.Assert(testsRegistry.running[dir+"/f.snap"]["TestM"] == 1, "C17:ordinal-consumed")
